@@ -278,9 +278,81 @@ pub fn run(tier: Tier) -> Report {
     rep.add_transitions(8 * vectors.len() as u64);
     rep.add_states(2 * vectors.len() as u64);
     rep.add_nontrivial(2 * vectors.len() as u64 + 4096);
+    // ---- planes of several blocks: a block's result must not depend on its neighbours in the plane
+    {
+        let v1: [f32; 8] = [800.0, -93.0, 41.0, 0.0, -7.0, 0.0, 3.0, 0.0];
+        let v2: [f32; 8] = [800.0, 93.0, 0.0, 0.0, 0.0, 0.0, 0.0, -12.0];
+        let mut f1 = [[0f32; 8]; 8];
+        let mut f2 = [[0f32; 8]; 8];
+        for (i, v) in [640.0f32, -51.0, 33.0, 17.0, -9.0, 5.0].iter().enumerate() {
+            f1[i % 3][(i * 2) % 5] = *v;
+            f2[(i * 3) % 7][i % 4] = -*v;
+        }
+        f1[0][0] = 800.0;
+        let letters: Vec<(&str, DecodedDctBlock)> = vec![
+            ("Zero", DecodedDctBlock::Zero),
+            ("Dc(800)", DecodedDctBlock::Dc(800.0)),
+            ("Dc(-96)", DecodedDctBlock::Dc(-96.0)),
+            ("Horiz(v1)", DecodedDctBlock::Horiz(v1)),
+            ("Horiz(v2)", DecodedDctBlock::Horiz(v2)),
+            ("Vert(v1)", DecodedDctBlock::Vert(v1)),
+            ("Vert(v2)", DecodedDctBlock::Vert(v2)),
+            ("Full(f1)", DecodedDctBlock::Full(f1)),
+            ("Full(f2)", DecodedDctBlock::Full(f2)),
+        ];
+        // reference: each letter alone over prediction 100
+        let alone: Vec<Vec<u8>> = letters
+            .iter()
+            .map(|(_, b)| {
+                let mut out = vec![100u8; 64];
+                let mut blk = [*b];
+                let _ = catch(|| idct_channel(&mut blk, &mut out, 1, 8));
+                out
+            })
+            .collect();
+        let n = letters.len();
+        let len = if tier.thorough() { 5 } else { 4 };
+        let total = n.pow(len as u32);
+        let seqs: Vec<usize> = (0..total).collect();
+        seqs.par_iter().for_each(|&code| {
+            let mut idx = vec![];
+            let mut c = code;
+            for _ in 0..len {
+                idx.push(c % n);
+                c /= n;
+            }
+            // two layouts: one row of `len` blocks, and a 2-column arrangement (raster order differs)
+            for cols in [len, 2] {
+                let rows = (len + cols - 1) / cols;
+                let mut blocks: Vec<DecodedDctBlock> = idx.iter().map(|i| letters[*i].1).collect();
+                blocks.resize(rows * cols, DecodedDctBlock::Zero);
+                let mut plane = vec![100u8; rows * cols * 64];
+                if let Err(p) = catch(|| idct_channel(&mut blocks, &mut plane, cols, cols * 8)) {
+                    rep.violation(&panic_sig(&p), format!("plane of blocks {:?}: {p}", idx.iter().map(|i| letters[*i].0).collect::<Vec<_>>()), json!({"kind": "idct-plane", "blocks": idx}));
+                    continue;
+                }
+                for (k, &li) in idx.iter().enumerate() {
+                    let (bx, by) = (k % cols, k / cols);
+                    let same = (0..64).all(|t| plane[(by * 8 + t / 8) * cols * 8 + bx * 8 + t % 8] == alone[li][t]);
+                    if !same {
+                        rep.violation_lazy(&format!("C10/block-result-depends-on-neighbours-{}", letters[li].0.split('(').next().unwrap()), || {
+                            (
+                                format!("block {k} ({}) of the plane [{}] ({cols} columns) differs from the same block transformed alone", letters[li].0, idx.iter().map(|i| letters[*i].0).collect::<Vec<_>>().join(", ")),
+                                json!({"kind": "idct-plane", "blocks": idx.iter().map(|i| letters[*i].0).collect::<Vec<_>>(), "columns": cols}),
+                            )
+                        });
+                        break;
+                    }
+                }
+            }
+        });
+        rep.add_transitions(2 * total as u64);
+        rep.add_states(total as u64);
+        rep.extra("block_sequences_in_one_plane", json!(total));
+    }
     rep.extra("off_by_one_outside_rounding_band_informational", json!(info.load(std::sync::atomic::Ordering::Relaxed)));
     rep.set_rule(&format!(
-        "Annex A procedure verbatim for generator seeds {:?}: 10000 blocks for each of (-256..255), (-5..5), (-300..300) and their negations, forward DCT in f64, rounded, clipped, through idct_channel (hook) as Full blocks, against the f64 inverse; all 4096 Dc blocks; Horiz/Vert: all single-entry vectors over -2048..2047, all two-entry vectors over a 15-value boundary set, dense vectors from the same generator; each block is transformed over prediction 0 and 255 to observe residuals -255..255 (-256 is observable only as <= -255); non-trivial = sparse-shape blocks",
+        "Annex A procedure verbatim for generator seeds {:?}: 10000 blocks for each of (-256..255), (-5..5), (-300..300) and their negations, forward DCT in f64, rounded, clipped, through idct_channel (hook) as Full blocks, against the f64 inverse; all 4096 Dc blocks; Horiz/Vert: all single-entry vectors over -2048..2047, all two-entry vectors over a 15-value boundary set, dense vectors from the same generator; all sequences of 4 (thorough 5) blocks over a 9-letter block alphabet in one plane, in two layouts, each block compared with the same block transformed alone; each block is transformed over prediction 0 and 255 to observe residuals -255..255 (-256 is observable only as <= -255); non-trivial = sparse-shape blocks",
         seeds
     ));
     rep.sample(json!({"annex_a": "seed 1, range -256..255, block 0: 64 generated samples -> fdct -> Full block"}));
